@@ -1,5 +1,6 @@
 import StorageModel.Driver.Common
 import StorageModel.C04.Model
+import StorageModel.C04.Marks
 import StorageModel.C04.Spec
 import StorageModel.C04.Render
 /- model driver for C04: `run spec` reads case lines on stdin and prints one output line per case
@@ -23,20 +24,30 @@ def parseCreateC (c : Child) : List String → Option Op
       { tag := ← parseFV t, m := ← parseFV m, g := ← parseFV g })
   | _ => none
 
+/-- a checker word `<m>` or `<m>/<k>/<y>` (fields listed by caller-side name / stored key / symbol name) resolved
+    under the naming: which field bits are selected (`Naming.selects`); `tag` (16) has one name only -/
+def parseSel (nm : Naming) (w : String) : Option (Nat × (Nat → Bool)) := do
+  let (m, k, y) ← (match w.splitOn "/" with
+    | [m] => do pure (← m.toNat?, 0, 0)
+    | [m, k, y] => do pure (← m.toNat?, ← k.toNat?, ← y.toNat?)
+    | _ => none)
+  let bit := fun (x b : Nat) => (x / b) % 2 = 1
+  pure (m, fun b => if b = 16 then (bit m b || bit k b || bit y b) else nm.selects (bit m b) (bit k b) (bit y b))
+
 /-- `<id>:<mask>:<owner>:<boss>:<dep>:<tag>[:<mentor>:<guard>]`, mask bits: 1 owner, 2 boss, 4 dep, 8 nil checker
     (every field), 16 tag, 32 mentor, 64 guard -/
-def parseUpdateC (c : Child) (l : List String) : Option Op := do
+def parseUpdateC (nm : Naming) (c : Child) (l : List String) : Option Op := do
   let (id, m, o, b, d, t, mm, g) ← (match l with
     | [id, m, o, b, d, t] => some (id, m, o, b, d, t, "~", "~")
     | [id, m, o, b, d, t, mm, g] => some (id, m, o, b, d, t, mm, g)
     | _ => none)
-  let m ← m.toNat?
+  let (m, sel) ← parseSel nm m
   let all := (m / 8) % 2 = 1
-  let bit := fun (k : Nat) => all || (m / k) % 2 = 1
+  let bit := fun (k : Nat) => all || sel k
   pure (Op.updateC c (← Bytes.ofHex id) { owner := ← parseFV o, boss := some (← Bytes.ofHex b), dep := ← parseFV d }
     { tag := ← parseFV t, m := ← parseFV mm, g := ← parseFV g } (bit 1) (bit 2) (bit 4) (bit 16) (bit 32) (bit 64))
 
-def parseOp (tok : String) : Option Op :=
+def parseOp (nm : Naming) (tok : String) : Option Op :=
   match tok.splitOn ":" with
   | ["cb", id] => (Bytes.ofHex id).map Op.createB
   | ["ca", id, o, b, d] => do
@@ -47,29 +58,32 @@ def parseOp (tok : String) : Option Op :=
     pure (Op.createA id { owner := o, boss := some b, dep := d })
   | ["ua", id, m, o, b, d] => do
     let id ← Bytes.ofHex id
-    let m ← m.toNat?
+    let (m, sel) ← parseSel nm m
     let o ← parseFV o
     let b ← Bytes.ofHex b
     let d ← parseFV d
     let all := m ≥ 8
     pure (Op.updateA id { owner := o, boss := some b, dep := d }
-      (all || m % 2 = 1) (all || (m / 2) % 2 = 1) (all || (m / 4) % 2 = 1))
+      (all || sel 1) (all || sel 2) (all || sel 4))
   | "cc" :: rest => parseCreateC .c1 rest
   | "c2" :: rest => parseCreateC .c2 rest
-  | "uc" :: rest => parseUpdateC .c1 rest
-  | "u2" :: rest => parseUpdateC .c2 rest
+  | "uc" :: rest => parseUpdateC nm .c1 rest
+  | "u2" :: rest => parseUpdateC nm .c2 rest
   | ["d2", id] => (Bytes.ofHex id).map Op.deleteC
   | ["dc", id] => (Bytes.ofHex id).map Op.deleteC
   | ["da", id] => (Bytes.ofHex id).map Op.deleteA
   | ["db", id] => (Bytes.ofHex id).map Op.deleteB
+  | ["xa", id, v] => do pure (Op.deleteAV (← Bytes.ofHex id) (← Bytes.ofHex v))
+  | ["xb", id, v] => do pure (Op.deleteBV (← Bytes.ofHex id) (← Bytes.ofHex v))
   | _ => none
 
-def parseTx (tok : String) : Option (List Op) := (tok.splitOn ",").mapM parseOp
+def parseTx (nm : Naming) (tok : String) : Option (List Op) := (tok.splitOn ",").mapM (parseOp nm)
 
 def parseVariant (w : String) : Option Schema := do
   let v ← w.toNat?
-  if v > 255 then none
-  else pure { depCascade := v % 2 = 1, depNullable := (v / 2) % 2 = 1, depFirst := (v / 4) % 2 = 1,
+  if v > 1023 then none
+  else pure { naming := (match (v / 256) % 4 with | 0 => .same | 1 => .keyed | 2 => .overridden | _ => .allDifferent),
+              depCascade := v % 2 = 1, depNullable := (v / 2) % 2 = 1, depFirst := (v / 4) % 2 = 1,
               idx1 := (v / 8) % 2 = 1, idx2 := (v / 16) % 2 = 1, fk1 := (v / 32) % 2 = 1, fk2 := (v / 64) % 2 = 1,
               c2First := (v / 128) % 2 = 1 }
 
@@ -79,10 +93,13 @@ def obsToken (verbose : Bool) (res : Option (Nat × Err)) (fine : Option String)
   resToken res ++ "#" ++ (match fine with | some f => enc f | none => "*") ++ "#" ++ enc coarse ++
     "@" ++ toString nA ++ "," ++ toString nB
 
-def runModel (verbose : Bool) (σ : Schema) (txs : List (List Op)) : List String :=
-  (txs.foldl (fun (acc : St × List String) tx =>
-    let (s', r) := runTx σ acc.1 tx
-    (s', obsToken verbose r (some (fineText s')) (coarseText s') s'.as.length s'.bs.length :: acc.2)) ({}, [])).2.reverse
+/-- the state-passing model (`Marks.lean`): the in-progress map of the mutate context is threaded through the
+    operations of a transaction and — `reuse` — through the transactions of the history -/
+def runModel (verbose reuse : Bool) (σ : Schema) (txs : List (List Op)) : List String :=
+  (txs.foldl (fun (acc : (St × Ctx) × List String) tx =>
+    let ((s', r), m') := runTxM σ (if reuse then acc.1.2 else {}) acc.1.1 tx
+    ((s', m'), obsToken verbose r (some (fineText σ.naming s')) (coarseText s') s'.as.length s'.bs.length :: acc.2))
+    (({}, {}), [])).2.reverse
 
 def runSpec (verbose : Bool) (σ : Schema) (txs : List (List Op)) : List String :=
   (txs.foldl (fun (acc : SSt × List String) tx =>
@@ -92,12 +109,14 @@ def runSpec (verbose : Bool) (σ : Schema) (txs : List (List Op)) : List String 
 def stepWith (spec : Bool) (line : String) : String :=
   match (splitSp line).filter (· ≠ "") with
   | kind :: v :: txs =>
-    if kind ≠ "h" ∧ kind ≠ "v" then "bad-case" else
-    match parseVariant v, txs.mapM parseTx with
-    | some σ, some txs =>
-      let out := if spec then runSpec (kind = "v") σ txs else runModel (kind = "v") σ txs
+    if kind ≠ "h" ∧ kind ≠ "v" ∧ kind ≠ "k" ∧ kind ≠ "w" then "bad-case" else
+    let verbose := kind = "v" ∨ kind = "w"
+    let reuse := kind = "k" ∨ kind = "w"
+    match (parseVariant v).bind (fun σ => (txs.mapM (parseTx σ.naming)).map (fun t => (σ, t))) with
+    | some (σ, txs) =>
+      let out := if spec then runSpec verbose σ txs else runModel verbose reuse σ txs
       if out.isEmpty then "empty" else " ".intercalate out
-    | _, _ => "bad-case"
+    | none => "bad-case"
   | _ => "bad-case"
 
 def step (line : String) : String := stepWith false line
